@@ -10,12 +10,12 @@ LEVEL = 'exploration'
 WALL_S = 60.0
 LINE_BUDGET = 200000000
 RULE = ('arithmetic normalisers (nat.norm_full, integer.int_norm_conv, real.real_norm_conv) on every expression with <=2 (thorough 3) '
-        'binary operators over two variables and small numerals, grouped by their polynomial (own dict-of-monomials normal form): '
+        'binary operators over two variables and small numerals plus every bracketing of four-factor products, grouped by their polynomial (own dict-of-monomials normal form): '
         'within a group all normal forms must be identical and normalising a normal form changes nothing; propositional normalisers '
         '(nnf_conv, proplogic.norm_full, sort_conj, sort_disj, logic.conj_norm, logic.disj_norm) on every formula with <=3 connectives '
         'resp. every conjunction/disjunction tree with <=4 leaves, grouped by their set of members; traversal combinators '
         '(top_conv, bottom_conv, top_sweep_conv, abs_conv, repeat_conv, try_conv, then/else) with rewr_conv of an assumed equation, '
-        'beta_conv and eta_conv on every lambda-term of size <=6. Every returned proof term: equation with left side = the input, '
+        'beta_conv and eta_conv on every lambda-term of size <=6 plus binders %x. g x x, %x. g (f x) x alone and under applications. Every returned proof term: equation with left side = the input, '
         'hypotheses among the supplied conditions, exported proof accepted by the kernel with the same sequent, eval agrees, and the '
         'equation is valid in finite models. distinct_nontrivial = distinct (conversion, term) pairs that returned an equation.')
 ASSUMPTIONS = ['own polynomial normal form over N / Z / Q; mc/ref.py, mc/holsem.py']
@@ -51,6 +51,22 @@ def arith_exprs(kind, nops):
     for n in range(nops + 1):
         out.extend(by[n])
     return out
+
+
+def product_trees():
+    """all products with four factors from {x, y, 2}, every bracketing (monomials whose right factor has three atoms)"""
+    leaves = [('v', 'x'), ('v', 'y'), ('n', 2)]
+
+    def shapes(n):
+        if n == 1:
+            for l in leaves:
+                yield l
+            return
+        for k in range(1, n):
+            for a in shapes(k):
+                for b in shapes(n - k):
+                    yield ('*', a, b)
+    return list(shapes(4))
 
 
 def poly(e):
@@ -193,7 +209,10 @@ def groups(tier):
     out = []
     for kind in ('nat', 'int', 'real'):
         gs = {}
-        for e in arith_exprs(kind, b['arith_ops']):
+        es = arith_exprs(kind, b['arith_ops'])
+        if b['arith_ops'] < 3:
+            es = es + product_trees()
+        for e in es:
             gs.setdefault(pkey(poly(e)), []).append(e)
         for key, ms in sorted(gs.items(), key=lambda kv: repr(kv[0])):
             # big groups are split; the first member is repeated so that the pieces stay comparable
@@ -221,6 +240,14 @@ def lambda_terms(tier):
     out = []
     for n in range(1, bounds(tier)['lambda_size'] + 1):
         out.extend(t for t, T in g.gen(n))
+    # abstractions whose body applies a function part that itself mentions the bound variable (not eta redexes)
+    fv, gv, cv, xv = atoms[2], atoms[3], atoms[0], atoms[1]
+    B0 = ('b', 0)
+    ap = lambda h, *a: __import__('functools').reduce(lambda u, w: ('app', u, w), a, h)
+    extra = [('abs', 'x', A, ap(gv, B0, B0)), ('abs', 'x', A, ap(gv, ap(fv, B0), B0)), ('abs', 'y', A, ap(gv, xv, B0)),
+             ('abs', 'x', A, ap(gv, cv, B0))]
+    extra += [ap(fv, ap(e, cv)) for e in extra] + [ap(gv, cv, ap(e, xv)) for e in extra]
+    out.extend(e for e in extra if e not in out)
     return out
 
 
